@@ -19,6 +19,7 @@ mkdir -p $lane/repo && find $lane/repo -mindepth 1 -maxdepth 1 ! -name target -e
 rsync -a --delete --exclude work --exclude .git --exclude 'harness/target*' --exclude replays --exclude seeded /verif/ $lane/verif/
 sed -i "s#path = \"/repo\"#path = \"$lane/repo\"#" $lane/verif/harness/Cargo.toml
 sed -i "s#\"/repo/tests/libsml-testing\"#\"$lane/repo/tests/libsml-testing\"#" $lane/verif/harness/src/common.rs
+find $lane/repo/src -type f -exec touch {} +   # git archive restores commit-time mtimes: cargo would keep a stale build
 (cd $lane/repo && patch -s -p1 < $patch) || { echo "patch does not apply"; exit 2; }
 cd $lane/verif
 for p in $props; do
